@@ -628,6 +628,29 @@ pub fn run(args: &Args) {
         }}}}
     });
 
+    // (2e) MIXED compatibility modes on live pairs (audit r3-3.2): the property fixes only the transport mode; the
+    // lattice has the same compat mode at both ends. Direct modes, audio + video, full ICE, the offerer Standard and
+    // the answerer LegacySip and vice versa: Connected, one RTP sample per section each way. Implementation-side
+    // oracle only (the model's delivery plan takes ONE bundle flag for both ends).
+    rt.block_on(async {
+        for mode in [Mode::Rtp, Mode::Srtp] { for (lo, la) in [(false, true), (true, false)] {
+            let cfg = Cfg { mode, mix: Mix::AudioVideo, bundle: 0, mux_require: true, ice: IceOpt::Full, latching: false, legacy: lo, p_offers: true };
+            let name = format!("{}-av-{}offerer-{}answerer", match mode { Mode::Rtp => "rtp", Mode::Srtp => "srtp", _ => "webrtc" }, if lo { "legacy" } else { "std" }, if la { "legacy" } else { "std" });
+            let mut p = Pair::create(cfg, &Knobs { q_legacy: Some(la), ..Knobs::default() });
+            run.count("mixed_compat_pairs");
+            let r: Result<(), String> = async { p.negotiate().await?; p.wait_connected(T_CONNECT).await }.await;
+            match r {
+                Err(e) => run.fail(&format!("cfgmix:{name}:not-connected"), &format!("mixed {name}"), &e),
+                Ok(()) => {
+                    let t = Duration::from_secs(3);
+                    for (i, m) in p.off.media.iter().enumerate() { if let Err(e) = rtp_roundtrip(m, &p.ans.pc, format!("verif-c10-mix-oa-{i}").as_bytes(), t).await { run.fail(&format!("cfgmix:{name}:rtp-not-delivered:o->a:section{i}"), &format!("mixed {name}"), &e); } }
+                    for (i, m) in p.ans.media.iter().enumerate() { if let Err(e) = rtp_roundtrip(m, &p.off.pc, format!("verif-c10-mix-ao-{i}").as_bytes(), t).await { run.fail(&format!("cfgmix:{name}:rtp-not-delivered:a->o:section{i}"), &format!("mixed {name}"), &e); } }
+                }
+            }
+            p.off.pc.close(); p.ans.pc.close();
+        }}
+    });
+
     // (3) pure helpers through hooks
     {
         let ip: std::net::IpAddr = "10.0.0.1".parse().unwrap();
